@@ -352,12 +352,38 @@ fn check_one(linter: &Linter, it: &Item, base: &Parsed, p: usize, mode: &str, ch
     let cls_owned = if it.name.starts_with("gapped[") { format!("{}@new-gap", PERTURBATIONS[p]) } else { PERTURBATIONS[p].to_string() };
     let cls = cls_owned.as_str();
     // comments abutting a code token on one side: outside the claimed class (DESIGN 6.11), one key per side
-    let key = match p {
+    let mut key = match p {
         4 => "c11:comment-abuts-previous-code-token".to_string(),
         5 => "c11:comment-abuts-next-code-token".to_string(),
         _ => format!("c11:{}:{}:{}", it.dialect, cls, fnv(&text2)),
     };
-    let input = json!({"dialect":it.dialect,"perturbation":cls,"mode":mode,"origin":it.name,"original":it.text,"perturbed":text2});
+    if p == 4 || p == 5 {
+        // the two recorded classes are keyed by the site that fails: the kind of the code token the comment touches on its
+        // left (p = 4: a token whose pattern absorbs '/' or '*'), the keyword it touches on its right (p = 5: a keyword
+        // terminator); a failure at any other kind of site is a different violation
+        let fails = |sites: &[usize]| -> bool {
+            match parse(linter, &apply(ls, p, sites, mat)) {
+                Ok(Some(p2)) => p2.shape != base.shape,
+                _ => true,
+            }
+        };
+        if fails(chosen) {
+            let culprit = chosen.iter().copied().find(|&i| fails(&[i]));
+            let site = match culprit {
+                Some(i) => {
+                    let nb = if p == 4 { ls[..i].iter().rev().find(|l| l.code) } else { ls[i + 1..].iter().find(|l| l.code) };
+                    match nb {
+                        Some(l) if p == 4 => format!("{:?}", l.kind).to_lowercase(),
+                        Some(l) => l.raw.to_ascii_uppercase().chars().take(24).collect::<String>(),
+                        None => "edge".to_string(),
+                    }
+                }
+                None => "several-sites".to_string(),
+            };
+            key = format!("{}:{}", key, site);
+        }
+    }
+    let input = json!({"dialect":it.dialect,"perturbation":cls,"mode":mode,"origin":it.name,"original":it.text,"perturbed":text2,"known_key":key});
     match parse(linter, &text2) {
         Err(msg) => buf.direct(cls, false, &key, &format!("perturbed text panics the parser: {}", trunc(&msg, 120)), input),
         Ok(None) => buf.direct(cls, false, &key, "original parses fully, perturbed text has unparsable sections", input),
@@ -841,9 +867,10 @@ pub fn main(args: &Args) {
         let orig = v["original"].as_str().unwrap_or("");
         let pert = v["perturbed"].as_str().unwrap_or("");
         let cls = v["perturbation"].as_str().unwrap_or("replay").to_string();
-        let key = match cls.as_str() {
-            "block-comment-left-of-whitespace" => "c11:comment-abuts-previous-code-token".to_string(),
-            "block-comment-right-of-whitespace" => "c11:comment-abuts-next-code-token".to_string(),
+        let key = match (v["known_key"].as_str(), cls.as_str()) {
+            (Some(k), _) => k.to_string(),
+            (None, "block-comment-left-of-whitespace") => "c11:comment-abuts-previous-code-token".to_string(),
+            (None, "block-comment-right-of-whitespace") => "c11:comment-abuts-next-code-token".to_string(),
             _ => format!("c11:{}:{}:{}", d, cls, fnv(pert)),
         };
         match (parse(&linter, orig), parse(&linter, pert)) {
@@ -870,7 +897,7 @@ pub fn main(args: &Args) {
                 ("SELECT a FROM t\n", "select\n\ta\n\n\nfrom -- c\n t\n", "mixed"),
                 ("SELECT a FROM t\n", "SELECT a /* c */FROM t\n", "block-comment-right-of-whitespace"),
             ] {
-                let key = if cls == "block-comment-right-of-whitespace" { "c11:comment-abuts-next-code-token".to_string() } else { format!("c11:{}:{}:{}", d, cls, fnv(pert)) };
+                let key = if cls == "block-comment-right-of-whitespace" { "c11:comment-abuts-next-code-token:FROM".to_string() } else { format!("c11:{}:{}:{}", d, cls, fnv(pert)) };
                 let input = json!({"dialect":d,"perturbation":cls,"mode":"regression","origin":"regression","original":orig,"perturbed":pert});
                 match (parse(&linter, orig), parse(&linter, pert)) {
                     (Ok(Some(a)), Ok(Some(b))) => buf.direct("regression", a.shape == b.shape, &key, "code-only tree differs", input),
